@@ -15,8 +15,9 @@ Two layers.
    function (`eps`, `zerovalue`, `tol`, `power`), `var 2`, `var 3` = further parameters.
 
 2. `Tree` — AD programs on vectors, evaluated over `Float` exactly as the code does it: row-wise rules
-   (`_diagvec_mul_jac` scales ROW i of the Jacobian by entry i), left sparse products, row slicing,
-   `l2_norm`, `maximum`, `initAdArrays`.  Jacobians are dense lists of rows.
+   (`_diagvec_mul_jac` scales ROW i of the Jacobian by entry i; `maximum` is such a rule too: its factors are 0/1
+   indicator expressions), left sparse products, row slicing, `l2_norm` (generated `NormRule`), `initAdArrays`.
+   Jacobians are dense lists of rows.
 -/
 namespace PorepyVerif.C01
 
@@ -51,6 +52,16 @@ structure Rule where
   val : SExpr
   dself : SExpr
   dother : Option SExpr := none
+  plain : Option SExpr := none
+  deriving Repr, DecidableEq, Inhabited
+
+/-- `l2_norm` (dim ≥ 2) as coded: consecutive groups of `dim` rows are contracted to one row.
+    `val`: the value of the row, an expression in `var 1` = Σ_k x_k² of the group;
+    `coef`: the factor of row k of the group in the new Jacobian row, `var 0` = x_k, `var 1` = Σ_k x_k². -/
+structure NormRule where
+  name : String
+  val : SExpr
+  coef : SExpr
   plain : Option SExpr := none
   deriving Repr, DecidableEq, Inhabited
 
@@ -143,13 +154,8 @@ inductive Tree where
   | matmul (m : List (List Float)) (cols : Nat) (a : Tree)
   /-- `a[key]`, `idx` = the rows `key` selects -/
   | slice (idx : List Nat) (a : Tree)
-  | l2norm (dim : Nat) (a : Tree)
-  /-- `maximum(a, b)`, both AdArrays -/
-  | maxAd (a b : Tree)
-  /-- `maximum(a, c)` with `c` an array (or broadcast scalar) -/
-  | maxR (a : Tree) (c : List Float)
-  /-- `maximum(c, a)` -/
-  | maxL (c : List Float) (a : Tree)
+  /-- `l2_norm(dim, a)`, dim ≥ 2, with the generated rule -/
+  | l2norm (r : NormRule) (dim : Nat) (a : Tree)
   /-- a generated table entry says this operand combination raises -/
   | raises (kind : String) (a : Tree)
   deriving Inhabited
@@ -193,23 +199,14 @@ def ncols (x : AdF) (dflt : Nat) : Nat := match x.jac with
   | g :: _ => g.length
   | [] => dflt
 
-/-- `np.linalg.norm` of consecutive groups of `dim` entries and the Jacobian `norm_jac * var.jac` of `l2_norm` -/
-def l2F (dim n : Nat) (x : AdF) : AdF :=
+/-- consecutive groups of `dim` rows contracted with the generated `NormRule`
+    (row g of the result = Σ_k coef(x_k, S_g) • row (dim*g+k), S_g = Σ_k x_k²) -/
+def l2F (r : NormRule) (dim n : Nat) (x : AdF) : AdF :=
   let groups := (List.range (x.val.length / dim)).map (fun i => ((x.val.drop (dim * i)).take dim, (x.jac.drop (dim * i)).take dim))
-  let tol : Float := 1e-12
-  { val := groups.map (fun (vs, _) => Float.sqrt (vs.foldl (fun s v => s + v * v) 0)),
+  { val := groups.map (fun (vs, _) => r.val.evalF [0, vs.foldl (fun s v => s + v * v) 0]),
     jac := groups.map (fun (vs, gs) =>
-      let nrm := Float.sqrt (vs.foldl (fun s v => s + v * v) 0)
-      let w := if nrm > tol then vs.map (· / nrm) else vs.map (fun _ => 1)
-      combRows n w gs) }
-
-/-- rows of the second argument where it is strictly larger, else rows of the first -/
-def maxF (x y : AdF) : AdF :=
-  let rows := (x.val.zip x.jac).zip (y.val.zip y.jac)
-  { val := rows.map (fun ((v, _), (w, _)) => if w > v then w else v),
-    jac := rows.map (fun ((v, g), (w, h)) => if w > v then h else g) }
-
-def constAd (c : List Float) (n : Nat) : AdF := { val := c, jac := c.map (fun _ => zeroRow n) }
+      let sq := vs.foldl (fun s v => s + v * v) 0
+      combRows n (vs.map (fun v => r.coef.evalF [v, sq])) gs) }
 
 /-- Evaluate a tree; `n` = total number of independent variables (Jacobian columns). -/
 def Tree.evalF (vars : List AdF) (n : Nat) : Tree → Res AdF
@@ -239,25 +236,12 @@ def Tree.evalF (vars : List AdF) (n : Nat) : Tree → Res AdF
     let x ← a.evalF vars n
     if idx.any (fun i => i ≥ x.val.length) then throw "IndexError" else
     pure { val := idx.map (fun i => x.val.getD i 0), jac := idx.map (fun i => x.jac.getD i []) }
-  | .l2norm dim a => do
+  | .l2norm r dim a => do
     let x ← a.evalF vars n
     if dim == 0 then throw "bad-dim" else
     -- `np.reshape(var.val, (dim, -1))` raises before the `assert dim_size % dim == 0` is reached
     if x.val.length % dim != 0 then throw "ValueError" else
-    pure (l2F dim n x)
-  | .maxAd a b => do
-    let x ← a.evalF vars n
-    let y ← b.evalF vars n
-    if x.val.length != y.val.length then throw "ValueError" else
-    pure (maxF x y)
-  | .maxR a c => do
-    let x ← a.evalF vars n
-    if x.val.length != c.length then throw "ValueError" else
-    pure (maxF x (constAd c n))
-  | .maxL c a => do
-    let x ← a.evalF vars n
-    if x.val.length != c.length then throw "ValueError" else
-    pure (maxF (constAd c n) x)
+    pure (l2F r dim n x)
   | .raises kind a => do
     let _ ← a.evalF vars n
     throw kind
